@@ -2,6 +2,7 @@
 
 pub mod clock;
 pub mod evidence;
+pub mod ilv;
 pub mod inner;
 pub mod seq;
 pub mod svcx;
